@@ -8,9 +8,9 @@ use nom::number::complete::double;
 use nom::IResult;
 
 // Constants representing time units in nanoseconds
-const SECOND: u64 = 1_000_000_000;
-const MILLISECOND: u64 = 1_000_000;
-const MICROSECOND: u64 = 1_000;
+const SECOND: u128 = 1_000_000_000;
+const MILLISECOND: u128 = 1_000_000;
+const MICROSECOND: u128 = 1_000;
 
 /// Parses a duration string into a [`Duration`]. Duration strings support the
 /// following grammar:
@@ -101,22 +101,10 @@ pub fn format_duration(d: &Duration) -> String {
     let buf = &mut [0u8; 32];
     let mut w = buf.len();
 
-    let mut neg = false;
-    let mut u = d
-        .num_nanoseconds()
-        .map(|n| {
-            if n < 0 {
-                neg = true;
-            }
-            n as u64
-        })
-        .unwrap_or_else(|| {
-            let s = d.num_seconds();
-            if s < 0 {
-                neg = true;
-            }
-            s as u64 * SECOND
-        });
+    // magnitude in nanoseconds; chrono durations can exceed 64-bit nanoseconds, hence u128
+    let neg = *d < Duration::zero();
+    let mut u = d.num_seconds().unsigned_abs() as u128 * SECOND
+        + d.subsec_nanos().unsigned_abs() as u128;
 
     if u < SECOND {
         // Special case: if duration is smaller than a second,
@@ -175,7 +163,7 @@ pub fn format_duration(d: &Duration) -> String {
     String::from_utf8_lossy(&buf[w..]).into_owned()
 }
 
-fn format_float(buf: &mut [u8], mut v: u64, prec: usize) -> (usize, u64) {
+fn format_float(buf: &mut [u8], mut v: u128, prec: usize) -> (usize, u128) {
     let mut w = buf.len();
     let mut print = false;
     for _ in 0..prec {
@@ -194,7 +182,7 @@ fn format_float(buf: &mut [u8], mut v: u64, prec: usize) -> (usize, u64) {
     (w, v)
 }
 
-fn format_int(buf: &mut [u8], mut v: u64) -> usize {
+fn format_int(buf: &mut [u8], mut v: u128) -> usize {
     let mut w = buf.len();
     if v == 0 {
         w -= 1;
